@@ -216,7 +216,31 @@ def run(tier="quick", seed=0, repo="/repo"):
             except Exception as e:  # noqa: BLE001
                 ok, detail = False, f"{type(e).__name__}: {str(e)[:160]}"
             t.case(f"scope-{aspect}:{db}.{sch}.same", ("scope", aspect, db, sch), ok, function="fakesnow.info_schema", case={"sql": sql}, expected=repr(want), actual=detail)
-    return t.result(bound=f"histories of <= {n} statements over {len(OPS)} DDL statements after one CREATE TABLE; one table name declared differently in 3 scopes x 3 metadata surfaces")
+    # a column re-declared from an explicit length to the default one: the earlier declaration must not survive in the side table
+    REDECL = {
+        "replace": ["create table db1.s1.r1 (id int, name varchar(10))", "create or replace table db1.s1.r1 (id int, name varchar)"],
+        "drop-add-column": ["create table db1.s1.r2 (id int, name varchar(7))", "alter table db1.s1.r2 drop column name", "alter table db1.s1.r2 add column name string"],
+        "drop-create": ["create table db1.s1.r3 (id int, name varchar(10))", "drop table db1.s1.r3", "create table db1.s1.r3 (id int, name text)"],
+        "replace-shorter-then-default": ["create table db1.s1.r4 (id int, name varchar(10))", "create or replace table db1.s1.r4 (id int, name varchar(3))", "create or replace table db1.s1.r4 (id int, name varchar)"],
+    }
+    for label, stmts in REDECL.items():
+        fs = new_instance(repo)
+        conn = fs.connect("db1", "s1")
+        cur = conn.cursor()
+        tbl = stmts[0].split()[2].split(".")[-1].upper()
+        try:
+            for q in stmts:
+                cur.execute(q)
+            cur.execute(f"select character_maximum_length from db1.information_schema.columns where table_schema = 'S1' and table_name = '{tbl}' and column_name = 'NAME'")
+            got_len = cur.fetchall()
+            cur.execute(f"describe table db1.s1.{tbl}")
+            got_desc = [r[1] for r in cur.fetchall() if r[0] == "NAME"]
+            ok = got_len == [(16777216,)] and got_desc == ["VARCHAR(16777216)"]
+            detail = f"information_schema {got_len}, DESCRIBE {got_desc}"
+        except Exception as e:  # noqa: BLE001
+            ok, detail = False, f"{type(e).__name__}: {str(e)[:160]}"
+        t.case(f"redeclare-length:{label}", ("redeclare", label), ok, function="fakesnow.info_schema", case={"history": stmts}, expected="[(16777216,)], ['VARCHAR(16777216)']", actual=detail)
+    return t.result(bound=f"4 length re-declaration histories; histories of <= {n} statements over {len(OPS)} DDL statements after one CREATE TABLE; one table name declared differently in 3 scopes x 3 metadata surfaces")
 
 
 def replay(case, repo):
